@@ -54,6 +54,9 @@ type loopInfo struct {
 	spec   *LoopSpec
 	decr0  Term
 	hasDec bool
+	mono0  []Term
+	headState *State
+	headPhis  map[*ssa.Phi]Val
 	phiOld map[*ssa.Phi]Term
 	// state at head after havoc (for naming only)
 }
@@ -74,6 +77,7 @@ type fx struct {
 	cur       *State
 	curReach  Term
 	curBlock  *ssa.BasicBlock
+	curIdx    int // index of the instruction being executed in curBlock (-1: at block entry)
 	returns   []*retEdge
 	panics    []*panicEdge // raised in the body (before defers)
 	panicsOut []*panicEdge // leaving the function
@@ -88,6 +92,7 @@ type fx struct {
 	counters    map[string]int
 	assumptions map[string]bool
 	params      map[string]TV
+	siteOrds    map[string]map[token.Pos]int // callee key -> static call site -> ordinal by source position
 	freeVars    []Val
 	srcLines    map[string][]string
 	epochAlloc  map[int]Term
@@ -146,7 +151,7 @@ func (f *fx) get(st *State, key string) Term {
 			t = f.e.sorts.zero(srt)
 		} else if strings.HasPrefix(key, "E:defer") {
 			t = tFalse
-		} else if strings.HasPrefix(key, "E:ncalls:") {
+		} else if strings.HasPrefix(key, "E:ncalls:") || strings.HasPrefix(key, "E:visits:") {
 			t = intLit(0)
 		} else {
 			t = f.sc.fresh(fmt.Sprintf("%s@%d", key, ep), srt)
